@@ -8,14 +8,14 @@ TARGETS = ["Run.vo"]
 IMPORTS = "From VF Require Import Base Show Gen_Errors Status Run."
 ALLOWED_AXIOMS = []
 PROFILES = ["debug"]
-ASSUMPTIONS = ["device wired as examples/minimal_scpi.rs (VecDeque error queue, scpi_stb/scpi_cls/scpi_opc); "
+ASSUMPTIONS = ["device wired as examples/minimal_scpi.rs (the library VecErrorQueue as error queue, scpi_stb/scpi_cls/scpi_opc); "
                "message -> operation mapping by the template table of tools/props/statuslib.py (op-level model; the "
                "byte-level path is covered by C02/C04/C06/C07)"]
 
 
 def harness_line(c): return c
 def case_of_line(l): return l
-def obs(s): return s
+def obs(s): return statuslib.obs_fields(s, ('o', 'u', 'h'))   # C15 constrains the register sets and their responses only
 
 
 def nontrivial(c, impl):
@@ -49,4 +49,5 @@ def corpus():
 def generate(rng, tier):
     n = 250 if tier == "quick" else 4000
     return [statuslib.gen_history(rng, rng.choice([5, 10, 20, 40, 60]) if tier == "thorough" else rng.choice([4, 8, 16, 30]),
-                                  {"reg": 5, "cond": 4, "common": 1, "fail": 0.2}) for _ in range(n)]
+                                  {"reg": 5, "cond": 4, "common": 1, "fail": 0.2},
+                                  common_pool=[b"*CLS", b"*CLS", b"STAT:PRES", b"STATus:PRESet", b"*RST", b"*WAI", b"*ESE 3", b"*OPC?"]) for _ in range(n)]
